@@ -147,6 +147,19 @@ fn graph_part(render: &str) -> String {
   out.join("] ")
 }
 
+/// use -> def map of the original analysis (loc ids), from the canonical rendering
+fn def_of(render: &str) -> HashMap<usize, usize> {
+  let m = &render[render.find("M[").unwrap() + 2..];
+  let m = &m[..m.find(']').unwrap()];
+  m.split(',')
+    .filter(|e| !e.is_empty())
+    .map(|e| {
+      let (u, d) = e.split_once('>').unwrap();
+      (u.parse().unwrap(), d.parse().unwrap())
+    })
+    .collect()
+}
+
 fn rn(src: &str, include_this: bool) -> String {
   let p = match parse(src) {
     None => return "syntax".to_string(),
@@ -157,69 +170,64 @@ fn rn(src: &str, include_this: bool) -> String {
     return "rejected".to_string();
   }
   let g0 = graph_part(&p.render);
+  let defs = def_of(&p.render);
   let mut n = 0;
   let mut sample = String::new();
+  // the rename result depends only on (definition, uses): all occurrences of one binding must
+  // produce the same text; the expensive checks run once per binding
+  let mut per_def: HashMap<usize, String> = HashMap::new();
   for (k, (locid, name, _, pos)) in p.occ.iter().enumerate() {
     if (name == "this") != include_this {
       continue; // `this` is not a user variable; probed separately (finding C15-F1)
     }
-    let new_name = format!("zq{k}");
+    let def = *defs.get(locid).unwrap_or(locid);
+    let new_name = format!("zq{def}");
     let fail = |what: &str, extra: &str| format!("FAIL {} occ={} name={} new={} {}", what, locid, name, new_name, extra);
     let t1 = match rewrite::rename(&mut state, &mref, *pos, &new_name) {
       Some(t) => t,
-      None => return fail("rename-returned-none", ""),
+      None => return fail("rename-returned-none", &hex(src.as_bytes())),
     };
+    n += 1;
+    if let Some(prev) = per_def.get(&def) {
+      if *prev != t1 {
+        return fail("rename-depends-on-the-occurrence-chosen", &hex(t1.as_bytes()));
+      }
+      continue;
+    }
+    per_def.insert(def, t1.clone());
     let p1 = match parse(&t1) {
       Some(x) => x,
       None => return fail("renamed-does-not-parse", &hex(t1.as_bytes())),
     };
-    let (mut s1, m1) = new_state(&t1);
-    if !s1.get_errors(&m1).is_empty() {
-      return fail("renamed-has-diagnostics", &hex(t1.as_bytes()));
-    }
     if graph_part(&p1.render) != g0 {
       return fail("def-use-graph-changed", &hex(t1.as_bytes()));
     }
-    // every occurrence carrying the new name must be exactly the binding and its uses
-    let expect: Vec<usize> = {
-      // from the original analysis: occurrences resolving to the same definition as `locid`
-      let r = &p.render;
-      let m = &r[r.find("M[").unwrap() + 2..];
-      let m = &m[..m.find(']').unwrap()];
-      let mut def = *locid;
-      let mut pairs = Vec::new();
-      for e in m.split(',').filter(|e| !e.is_empty()) {
-        let (u, d) = e.split_once('>').unwrap();
-        let (u, d): (usize, usize) = (u.parse().unwrap(), d.parse().unwrap());
-        if u == *locid {
-          def = d;
-        }
-        pairs.push((u, d));
-      }
-      let mut v: Vec<usize> = pairs.iter().filter(|(_, d)| *d == def).map(|(u, _)| *u).collect();
-      v.push(def);
-      v.sort();
-      v.dedup();
-      v
-    };
+    let mut expect: Vec<usize> = defs.iter().filter(|(_, d)| **d == def).map(|(u, _)| *u).collect();
+    expect.push(def);
+    expect.sort();
+    expect.dedup();
     let mut got: Vec<usize> = p1.occ.iter().filter(|o| o.1 == new_name).map(|o| o.0).collect();
     got.sort();
     if got != expect {
       return fail("renamed-occurrences-differ", &format!("expected={expect:?} got={got:?} {}", hex(t1.as_bytes())));
     }
+    state.update(vec![(mref, t1.clone())]);
+    if !state.get_errors(&mref).is_empty() {
+      return fail("renamed-has-diagnostics", &hex(t1.as_bytes()));
+    }
     // rename back at the same occurrence
     let pos1 = p1.occ[k].3;
-    let t2 = match rewrite::rename(&mut s1, &m1, pos1, name) {
+    let t2 = match rewrite::rename(&mut state, &mref, pos1, name) {
       Some(t) => t,
       None => return fail("rename-back-returned-none", &hex(t1.as_bytes())),
     };
     if t2 != p.formatted {
       return fail("round-trip-differs", &hex(t2.as_bytes()));
     }
-    if n == 0 {
+    state.update(vec![(mref, src.to_string())]);
+    if sample.is_empty() {
       sample = hex(t1.as_bytes());
     }
-    n += 1;
   }
   format!("ok {} {}", n, if sample.is_empty() { "-".to_string() } else { sample })
 }
